@@ -68,6 +68,7 @@ func (vfs *MemFS) searchNode(path string, slMode slMode) (
 	for pi.Next() {
 		name := pi.Part()
 
+		avfs.VerifBeforeLock(&parent.mu, false)
 		parent.mu.RLock()
 		child = parent.children[name]
 		parent.mu.RUnlock()
@@ -89,6 +90,7 @@ func (vfs *MemFS) searchNode(path string, slMode slMode) (
 				return
 			}
 
+			avfs.VerifBeforeLock(&c.mu, false)
 			c.mu.RLock()
 			ok := c.checkPermission(avfs.OpenLookup, vfs.User())
 			c.mu.RUnlock()
@@ -246,6 +248,7 @@ func (bn *baseNode) checkPermission(perm avfs.OpenMode, u avfs.UserReader) bool 
 
 // Lock locks the node.
 func (bn *baseNode) Lock() {
+	avfs.VerifBeforeLock(&bn.mu, true)
 	bn.mu.Lock()
 }
 
@@ -294,6 +297,7 @@ func (dn *dirNode) delete() {
 
 // fillStatFrom returns a MemInfo (implementation of fs.FileInfo) from a dirNode dn named name.
 func (dn *dirNode) fillStatFrom(name string) *MemInfo {
+	avfs.VerifBeforeLock(&dn.mu, false)
 	dn.mu.RLock()
 
 	fst := &MemInfo{
@@ -381,6 +385,7 @@ func (fn *fileNode) delete() {
 
 // fillStatFrom returns a MemInfo (implementation of fs.FileInfo) from a fileNode fn named name.
 func (fn *fileNode) fillStatFrom(name string) *MemInfo {
+	avfs.VerifBeforeLock(&fn.mu, false)
 	fn.mu.RLock()
 
 	fst := &MemInfo{
@@ -443,6 +448,7 @@ func (sn *symlinkNode) delete() {
 
 // fillStatFrom returns a MemInfo (implementation of fs.FileInfo) from a symlinkNode named name.
 func (sn *symlinkNode) fillStatFrom(name string) *MemInfo {
+	avfs.VerifBeforeLock(&sn.mu, false)
 	sn.mu.RLock()
 
 	fst := &MemInfo{
